@@ -47,7 +47,8 @@ PROPS = {
     },
     "C11": {
         "tiers": tiers(2000, 60000, quick_budget=40),
-        "rule": "rapid-generated case: store configuration (MemoryStore streaming / paged; SQLite streaming unbatched, stream batch 1/2/3/7, paged; durable-streams paged with chunk default/64/256), WithReplayBatchSize unset/1/2/3/5/100, log length 0-40 (two thirds 0-12), start offset anywhere in the log, and one fault drawn jointly with its position: none, callback error at call k, context cancelled before the call, context cancelled by the callback at call k, store Read/stream-open failure at page p, stream row failure at row r, SQL driver failures underneath the SQLite store (rows.Next fails at row r, query fails, Rows.Close fails - through the verif hook), lost request / lost response on the j-th GET (durable-streams). Non-trivial: non-empty log; distinct = (scenario, history hash).",
+        "level": "fault_enumeration",
+        "rule": "rapid-generated case: store configuration (MemoryStore streaming / paged; SQLite streaming unbatched, stream batch 1/2/3/7, paged; durable-streams paged with chunk default/64/256), WithReplayBatchSize unset/1/2/3/5/100, log length 0-40 (two thirds 0-12), start offset anywhere in the log, and one fault drawn jointly with its position: none, callback error at call k, context cancelled before the call, context cancelled by the callback at call k, store Read/stream-open failure at page p, stream row failure at row r, SQL driver failures underneath the SQLite store (rows.Next fails at row r, query fails, Rows.Close fails - through the verif hook), lost request / lost response on the j-th GET (durable-streams). Before the seeded search the workers together enumerate the WHOLE grid (9 store configurations x batch sizes x log length 0..3 quick / 0..6 thorough x every start offset x every applicable fault kind x every fault position). Non-trivial: non-empty log; distinct = (scenario, history hash).",
         "components": dict(REAL_BUS, **dict(STORES, **{"SQL driver": "real modernc driver wrapped by a fault-injecting database/sql driver installed through the tag-guarded hook stores/sqlite/verif_hooks.go"})),
         "assumptions": COMMON_ASSUME + ["a cancellation that arrives after the last event was delivered may yield nil (the statement's two clauses disagree there; the weaker one is checked)"],
     },
@@ -72,7 +73,7 @@ PROPS = {
     "C17": {
         "tiers": tiers(3000, 100000),
         "level": "fault_enumeration",
-        "rule": "rapid-generated acyclic upcaster graph (0-8 raw edges over 7 names, several upcasters per source so 'first registered' matters, each raw upcaster appends a marker so the composition order is visible; optional typed family UA->UB->UC registered with RegisterUpcast, optionally reached from a raw edge), a 1-6 event log of raw and typed events (typed payloads sometimes undecodable) on MemoryStore or SQLite, and a fault position: the k-th upcaster application of the replay returns an error (k in 0..10, or none); with/without upcast error handler; checked through ReplayWithUpcast and SubscribeWithReplay[UC] against a chain model. Non-trivial: at least one upcaster registered; distinct = (graph, log, fault position) by scenario hash and history hash.",
+        "rule": "rapid-generated acyclic upcaster graph (0-8 raw edges over 7 names, several upcasters per source so 'first registered' matters, each raw upcaster appends a marker so the composition order is visible; optional typed family UA->UB->UC registered with RegisterUpcast, optionally reached from a raw edge), a 1-6 event log of raw and typed events (typed payloads sometimes undecodable) on MemoryStore or SQLite, and a fault position: the k-th upcaster application of the replay returns an error (k in 0..10, or none); with/without upcast error handler; checked through ReplayWithUpcast and SubscribeWithReplay[UC] against a chain model. Before the seeded search the workers enumerate a fixed grid: 7 hand-picked graphs x typed family x a log with one event of every type x EVERY failure position 0..14 x error handler on/off. Non-trivial: at least one upcaster registered; distinct = (graph, log, fault position) by scenario hash and history hash.",
         "components": dict(REAL_BUS, **STORES),
         "assumptions": COMMON_ASSUME + ["no concurrency in this property: the simulator contributes fault placement (every failure position of every chain over the sampled graphs), not schedules"],
     },
